@@ -19,7 +19,8 @@ Inductive leaf :=
 | LByteArr (lo hi : N)    (* VBytes b          <-> [b0, b1, ...]  (Vec<u8> fields without a string form) *)
 | LText (hi : N)          (* VText b           <-> string *)
 | LBool
-| LExt (id : N).          (* VBytes b          <-> string produced by external code (bech32) *)
+| LExt (id : N)           (* VBytes b          <-> string produced by external code (bech32) *)
+| LEnumStr (names : list bytes).   (* VNat i     <-> the i-th name (field-less enum used as a map key) *)
 
 Inductive jshape :=
 | JLeaf (l : leaf)
@@ -33,6 +34,9 @@ Inductive jshape :=
                                                  (* VMap l <-> {key string: value}; read back in the order of [okey] *)
 | JNullable (a : jshape)                         (* VNull <-> null *)
 | JIso (f g : val -> val) (a : jshape).          (* v <-> json of (f v); read back through g *)
+
+Fixpoint name_index (s : bytes) (names : list bytes) (i : N) : option N :=
+  match names with [] => None | n :: r => if bytes_eqb n s then Some i else name_index s r (i + 1) end.
 
 Definition is_jnull (j : json) : bool := match j with JNull => true | _ => false end.
 Definition is_nullable (a : jshape) : bool := match a with JNullable _ => true | _ => false end.
@@ -123,6 +127,7 @@ Section Ext.
     | LHex _ _, VBytes b => Some (hex b)
     | LText _, VText b => Some b
     | LExt id, VBytes b => Some (ext_str id b)
+    | LEnumStr names, VNat i => nth_error names (N.to_nat i)
     | _, _ => None
     end.
   Definition leaf_of_str (l : leaf) (s : bytes) : result val :=
@@ -143,6 +148,7 @@ Section Ext.
                     end
     | LText hi => if blen s <=? hi then Ok (VText s) else Err
     | LExt id => match ext_of_str id s with Some b => Ok (VBytes b) | None => Err end
+    | LEnumStr names => match name_index s names 0 with Some i => Ok (VNat i) | None => Err end
     | _ => Err
     end.
   Definition leaf_json (l : leaf) (v : val) : json :=
@@ -177,6 +183,11 @@ Section Ext.
     | LText hi, VText b => blen b <=? hi
     | LBool, VBool _ => true
     | LExt id, VBytes b => match ext_of_str id (ext_str id b) with Some b' => bytes_eqb b' b | None => false end
+    | LEnumStr names, VNat i =>
+        match nth_error names (N.to_nat i) with
+        | Some s => match name_index s names 0 with Some j => j =? i | None => false end
+        | None => false
+        end
     | _, _ => false
     end.
 
